@@ -41,23 +41,27 @@ def ctx(*values):
 
 
 def configs(t: str) -> List[Tuple[str, dict]]:
-    full = dict(reads='{{}, {"a"}, {"b"}}', leaf='{"asg", "aug", "use", "break", "continue"}', comp='{"if", "while", "for", "with"}')
-    small = dict(reads='{{}, {"a"}}', leaf='{"asg", "use", "break"}', comp='{"if", "while", "for"}')
+    full = dict(reads='{{}, {"a"}, {"b"}}', leaf='{"asg", "aug", "use", "break", "continue"}', comp='{"if", "while", "for", "with"}', tw='{""}')
+    small = dict(reads='{{}, {"a"}}', leaf='{"asg", "use", "break"}', comp='{"if", "while", "for"}', tw='{""}')
+    walrus = dict(reads='{{}, {"a"}}', leaf='{"asg", "use", "break", "return"}', comp='{"if", "while"}', tw='{"", "a", "b"}')
     if t == "quick":
         return [("depth1", dict(full, depth=1, pairs="FALSE", pre="TRUE", post="TRUE")),
-                ("depth2-small", dict(small, depth=2, pairs="FALSE", pre="FALSE", post="TRUE"))]
+                ("depth2-small", dict(small, depth=2, pairs="FALSE", pre="FALSE", post="TRUE")),
+                ("depth1-walrus-return", dict(walrus, depth=1, pairs="FALSE", pre="TRUE", post="TRUE"))]
     return [("depth1-pairs", dict(full, depth=1, pairs="TRUE", pre="TRUE", post="TRUE")),
             ("depth2-small", dict(small, depth=2, pairs="FALSE", pre="TRUE", post="TRUE")),
-            ("depth2-aug-continue", dict(reads='{{}, {"b"}}', leaf='{"asg", "aug", "continue", "break"}', comp='{"if", "while", "for"}',
-                                         depth=2, pairs="FALSE", pre="FALSE", post="TRUE"))]
+            ("depth2-aug-continue", dict(reads='{{}, {"b"}}', leaf='{"asg", "aug", "continue", "break"}', comp='{"if", "while", "for"}', tw='{""}',
+                                         depth=2, pairs="FALSE", pre="FALSE", post="TRUE")),
+            ("depth1-walrus-return", dict(walrus, depth=1, pairs="TRUE", pre="TRUE", post="TRUE")),
+            ("depth2-walrus-return", dict(walrus, depth=2, pairs="FALSE", pre="FALSE", post="TRUE"))]
 
 
 def cases(rep, t: str) -> List[dict]:
     out = []
     for label, c in configs(t):
         mc = "\n".join(["---- MODULE DataflowMC ----", "EXTENDS Dataflow", 'MC_Vars == {"a", "b"}', f"MC_Reads == {c['reads']}",
-                        f"MC_Leaf == {c['leaf']}", f"MC_Comp == {c['comp']}", "====", ""])
-        cfg = "\n".join(["CONSTANTS", "  Vars <- MC_Vars", "  Reads <- MC_Reads", "  LeafKinds <- MC_Leaf", "  Compounds <- MC_Comp",
+                        f"MC_Leaf == {c['leaf']}", f"MC_Comp == {c['comp']}", f"MC_TW == {c['tw']}", "====", ""])
+        cfg = "\n".join(["CONSTANTS", "  Vars <- MC_Vars", "  Reads <- MC_Reads", "  LeafKinds <- MC_Leaf", "  Compounds <- MC_Comp", "  TestWrites <- MC_TW",
                          f"  Depth = {c['depth']}", f"  PairBodies = {c['pairs']}", f"  Pre = {c['pre']}", f"  Post = {c['post']}",
                          "INIT Init", "NEXT Next", "INVARIANT Sane", "INVARIANT Dump", "CHECK_DEADLOCK FALSE", ""])
         res = run_tlc("DataflowMC", cfg, generated_files={"DataflowMC.tla": mc}, timeout_s=3000, keep_stdout=False, heap_gb=12)
@@ -83,8 +87,9 @@ class _Render:
         self.k += 10
         return self.k
 
-    def test(self, r) -> str:
-        return f"cond({', '.join(r)})"
+    def test(self, s) -> str:
+        call = f"cond({', '.join(s['r'])})"
+        return f"({s['ww']} := {call})" if s.get("ww") else call
 
     def block(self, stmts, ind: int) -> List[str]:
         pad = " " * ind
@@ -99,14 +104,16 @@ class _Render:
                 out.append(pad + f"print({', '.join(s['r'])})")
             elif k in ("break", "continue"):
                 out.append(pad + k)
+            elif k == "return":
+                out.append(pad + ('return a, b, "early"' if self.runnable else "return"))
             elif k == "if":
-                out.append(pad + f"if {self.test(s['r'])}:")
+                out.append(pad + f"if {self.test(s)}:")
                 out += self.block(s["body"], ind + 4)
                 if s["orelse"]:
                     out.append(pad + "else:")
                     out += self.block(s["orelse"], ind + 4)
             elif k == "while":
-                out.append(pad + f"while {self.test(s['r'])}:")
+                out.append(pad + f"while {self.test(s)}:")
                 out += self.block(s["body"], ind + 4)
                 if s["orelse"]:
                     out.append(pad + "else:")
@@ -159,6 +166,10 @@ def with_vector(text: str, k: int):
     if not first.startswith("VEC, N = "):
         return None
     return _HEADER.format(vec=MODULE_VECTORS[k][0], n=MODULE_VECTORS[k][1]) + rest
+
+
+def has_return(block) -> bool:
+    return any(s["k"] == "return" or has_return(s.get("body", [])) or has_return(s.get("orelse", [])) for s in block)
 
 
 def contract(mods, rec: dict) -> Dict[str, List[str]]:
